@@ -37,6 +37,11 @@ func init() {
 		}
 		prepareRaceLog()
 		flamego.SetEnv(flamego.EnvTypeProd)
+		if dir, err := os.MkdirTemp("", "verif-c05-"); err == nil {
+			defer os.RemoveAll(dir)
+			_ = os.WriteFile(filepath.Join(dir, "hello.txt"), []byte("static file content, the same for everybody"), 0o644)
+			c05Dir = dir
+		}
 		st := &c05Stats{}
 		n := c.Repeat
 		if n == 0 {
@@ -53,6 +58,9 @@ func init() {
 
 type c05ReqVal struct{ Tok string }
 
+// c05Opt is mapped application-wide and overridden in the request scope by only some requests.
+type c05Opt struct{ V string }
+
 // application-scoped service mapped by its concrete type and requested through an interface
 // (the implementor search runs on the shared application injector while serving)
 type c05Namer interface{ Name() string }
@@ -67,7 +75,10 @@ type c05Req struct {
 	Path   string
 }
 
-var c05Kinds = []string{"static", "optional-short", "optional-long", "placeholder", "regex", "matchall-capture", "final-matchall", "header", "any", "panic", "notfound", "render-json"}
+var c05Kinds = []string{"static", "optional-short", "optional-long", "placeholder", "regex", "matchall-capture", "final-matchall", "header", "any", "panic", "notfound", "render-json", "render-xml", "render-text", "query-cookie", "static-file", "grouped"}
+
+// c05Dir holds the file served by the Static middleware of the shared instance.
+var c05Dir string
 
 func c05MakeReq(kind, tok string, rng *rand.Rand) c05Req {
 	r := c05Req{Kind: kind, Tok: tok, Method: "GET"}
@@ -97,6 +108,16 @@ func c05MakeReq(kind, tok string, rng *rand.Rand) c05Req {
 		r.Path = "/nowhere/" + tok
 	case "render-json":
 		r.Path = "/j/" + tok
+	case "render-xml":
+		r.Path = "/x/" + tok
+	case "render-text":
+		r.Path = "/t/" + tok
+	case "query-cookie":
+		r.Path = "/qc/" + tok
+	case "static-file":
+		r.Path = "/assets/hello.txt"
+	case "grouped":
+		r.Path = "/g1/" + tok + "/g2/leaf"
 	}
 	return r
 }
@@ -139,6 +160,7 @@ func (s *c05Sched) perturb(tok string, phase int) {
 func buildC05(s *c05Sched) *flamego.Flame {
 	f := flamego.NewWithLogger(io.Discard)
 	f.Map(&c05Svc{name: "svc"})
+	f.Map(c05Opt{V: "app-default"})
 	f.Use(func(c flamego.Context) {
 		n := atomic.AddInt64(&s.inflight, 1)
 		for {
@@ -151,10 +173,17 @@ func buildC05(s *c05Sched) *flamego.Flame {
 		defer atomic.AddInt64(&s.inflight, -1)
 		c.Next()
 	})
+	f.Before(func(http.ResponseWriter, *http.Request) bool { return false })
 	f.Use(flamego.Logger(), flamego.Recovery(), flamego.Renderer(flamego.RenderOptions{JSONIndent: " "}))
+	f.Use(flamego.Static(flamego.StaticOptions{Directory: c05Dir, Prefix: "assets", SetETag: true, Expires: func() string { return "EXP" }}))
 	f.Use(func(c flamego.Context) {
 		tok := c.Request().Header.Get("X-Tok")
 		c.Map(c05ReqVal{Tok: tok})
+		if len(tok) > 0 && tok[len(tok)-1]%2 == 0 {
+			// only some requests override the application-wide value and tag their response through a before-function
+			c.Map(c05Opt{V: "req-" + tok})
+			c.ResponseWriter().Before(func(rw flamego.ResponseWriter) { rw.Header().Set("X-Req-Tag", tok) })
+		}
 		s.perturb(tok, 0)
 	})
 	f.NotFound(func(c flamego.Context, v c05ReqVal) (int, string) {
@@ -166,7 +195,7 @@ func buildC05(s *c05Sched) *flamego.Flame {
 			s.perturb(c.Request().Header.Get("X-Tok"), 1)
 			c.Next()
 		}
-		final := func(c flamego.Context, v c05ReqVal, req *http.Request, w http.ResponseWriter, nm c05Namer) { // reflective path
+		final := func(c flamego.Context, v c05ReqVal, req *http.Request, w http.ResponseWriter, nm c05Namer, opt c05Opt) { // reflective path
 			p := c.Params()
 			body, _ := c.Request().Body().String()
 			// a named route with an optional segment, built with and without it by different requests
@@ -174,8 +203,8 @@ func buildC05(s *c05Sched) *flamego.Flame {
 			if len(v.Tok)%2 == 0 || strings.HasSuffix(v.Tok, "1") || strings.HasSuffix(v.Tok, "a") {
 				url2 = c.URLPath("opt", "withOptional", "true")
 			}
-			out := fmt.Sprintf("kind=%s;tok=%s;hdr=%s;inj=%s;route=%s;url=%s;n=%s;rest=%s;body=%s;method=%s;svc=%s;url2=%s",
-				kind, p["tok"], req.Header.Get("X-Tok"), v.Tok, c.Param("route"), c.URLPath("user", "tok", v.Tok), p["n"], p["rest"], body, req.Method, nm.Name(), url2)
+			out := fmt.Sprintf("kind=%s;tok=%s;hdr=%s;inj=%s;route=%s;url=%s;n=%s;rest=%s;body=%s;method=%s;svc=%s;url2=%s;opt=%s",
+				kind, p["tok"], req.Header.Get("X-Tok"), v.Tok, c.Param("route"), c.URLPath("user", "tok", v.Tok), p["n"], p["rest"], body, req.Method, nm.Name(), url2, opt.V)
 			s.perturb(v.Tok, 2)
 			_, _ = w.Write([]byte(out))
 		}
@@ -193,6 +222,27 @@ func buildC05(s *c05Sched) *flamego.Flame {
 		s.perturb(c.Param("tok"), 1)
 		panic("boom-" + c.Param("tok"))
 	})
+	f.Get("/x/{tok}", func(c flamego.Context, r flamego.Render, v c05ReqVal) {
+		s.perturb(v.Tok, 1)
+		r.XML(202, xmlItem{K: c.Param("tok"), V: v.Tok})
+	})
+	f.Get("/t/{tok}", func(c flamego.Context, r flamego.Render, v c05ReqVal) {
+		s.perturb(v.Tok, 1)
+		r.PlainText(203, "tok="+c.Param("tok")+";inj="+v.Tok)
+	})
+	f.Get("/qc/{tok}", func(c flamego.Context, v c05ReqVal) string {
+		c.SetCookie(http.Cookie{Name: "sid", Value: v.Tok})
+		s.perturb(v.Tok, 1)
+		return fmt.Sprintf("q=%s;qi=%d;ck=%s;tok=%s;addr=%s", c.Query("tok"), c.QueryInt("n", 7), c.Cookie("sid"), c.Param("tok"), c.RemoteAddr())
+	})
+	f.Group("/g1/{tok}", func() {
+		f.Group("/g2", func() {
+			f.Combo("/leaf").Get(func(c flamego.Context, v c05ReqVal) string {
+				s.perturb(v.Tok, 2)
+				return "grouped;tok=" + c.Param("tok") + ";inj=" + v.Tok + ";route=" + c.Param("route")
+			})
+		}, func(c flamego.Context) { s.perturb(c.Param("tok"), 1) })
+	}, func(c flamego.Context) { c.Next() })
 	f.Get("/j/{tok}", func(c flamego.Context, r flamego.Render, v c05ReqVal) {
 		s.perturb(v.Tok, 1)
 		r.JSON(201, map[string]string{"tok": c.Param("tok"), "inj": v.Tok, "route": c.Param("route")})
@@ -209,13 +259,13 @@ type c05Resp struct {
 
 func c05Serve(f *flamego.Flame, rq c05Req) c05Resp {
 	spy := &retSpy{h: http.Header{}}
-	req := &http.Request{Method: rq.Method, URL: &url.URL{Path: rq.Path}, Header: http.Header{"X-Tok": {rq.Tok}}, RequestURI: rq.Path, Body: io.NopCloser(strings.NewReader("B" + rq.Tok))}
+	req := &http.Request{Method: rq.Method, URL: &url.URL{Path: rq.Path, RawQuery: "tok=" + rq.Tok + "&n=12"}, Header: http.Header{"X-Tok": {rq.Tok}, "Cookie": {"sid=" + rq.Tok}, "X-Real-Ip": {rq.Tok}}, RequestURI: rq.Path, Body: io.NopCloser(strings.NewReader("B" + rq.Tok))}
 	var out c05Resp
 	func() {
 		defer func() { out.pan = recover() }()
 		f.ServeHTTP(spy, req)
 	}()
-	out.status, out.body, out.ctype = spy.status, string(spy.body), spy.h.Get("Content-Type")
+	out.status, out.body, out.ctype = spy.status, string(spy.body), spy.h.Get("Content-Type")+"|tag="+strings.Join(spy.h.Values("X-Req-Tag"), ",")
 	return out
 }
 
@@ -420,14 +470,22 @@ func runC05(r *core.Run) {
 	}
 	prepareRaceLog()
 	c05Canaries(r)
+	dir, derr := os.MkdirTemp("", "verif-c05-")
+	if derr != nil {
+		r.Inconclusive("cannot create the fixture directory: " + derr.Error())
+		return
+	}
+	defer os.RemoveAll(dir)
+	_ = os.WriteFile(filepath.Join(dir, "hello.txt"), []byte("static file content, the same for everybody"), 0o644)
+	c05Dir = dir
 	orig := flamego.Env()
 	flamego.SetEnv(flamego.EnvTypeProd)
 	defer flamego.SetEnv(orig)
 
 	rounds := r.N(30, 300)
-	gor, per := 32, 60
+	gor, per := 2*len(c05Kinds), 56 // the first wave hits every kind while cold from two goroutines
 	if r.Thorough() {
-		gor, per = 64, 120
+		gor, per = 4*len(c05Kinds), 110
 	}
 	st := &c05Stats{}
 	w := r.Serial()
